@@ -88,6 +88,7 @@ Apply(st, op) ==
       [] op.op = "mutk" -> [st EXCEPT !.karr = Append(st.karr, Num(9)), !.ret = None] \* k pushBack 9
       [] op.op = "newkj" -> [st EXCEPT !.karr = <<JRef, Num(0)>>, !.ret = None]         \* k = [j, 0] (fresh outer array holding j)
       [] op.op = "mutj" -> [st EXCEPT !.jarr = Append(st.jarr, Num(9)), !.ret = None]   \* j pushBack 9
+      [] op.op = "mutkeys" -> [st EXCEPT !.ret = None]     \* every array among `keys m` gets an element pushed: the keys were handed out by value
 
 InitState == [maps |-> [m \in MapVars |-> {}], karr |-> <<>>, jarr |-> <<Num(3)>>, ret |-> None]
 
@@ -101,7 +102,7 @@ MapIsDict(st) == \A m \in MapVars : \A e1, e2 \in st.maps[m] :
                     KeyEq(KeyTree(st, e1[1]), KeyTree(st, e2[1])) => e1 = e2
 \* mutation of an array that was used as key neither loses nor changes an entry
 KeyCapturedByValue(st, op, st2) ==
-    op.op \in {"mutk", "mutj"} => \A m \in MapVars : Entries(st2, m) = Entries(st, m)
+    op.op \in {"mutk", "mutj", "mutkeys"} => \A m \in MapVars : Entries(st2, m) = Entries(st, m)
 \* a copy is independent of the original: operations on one map leave all others alone
 CopyIndependent(st, op, st2) ==
     op.op \in {"set", "del", "fromArray", "create", "copy"} =>
